@@ -171,6 +171,19 @@ impl Once {
                     .expect("must be initialized by this point")
                     .borrow_mut() = OnceInitState::Complete(clock);
             });
+
+            // Releasing the initialization lock ticks this task's clock once more. Callers that arrive after
+            // `call_once` has returned take the fast path and only merge the published clock, so publish the
+            // clock this task has when it returns (the state was already `Complete` above, so nobody can observe
+            // a completed `call_once` together with an incomplete `Once`).
+            drop(flag);
+            ExecutionState::with(|state| {
+                let clock = state.get_clock(state.current().id()).clone();
+                *self
+                    .get_state(state)
+                    .expect("must be initialized by this point")
+                    .borrow_mut() = OnceInitState::Complete(clock);
+            });
         }
     }
 
